@@ -3,7 +3,7 @@ ID = "C01"
 LEVEL = "proof"
 TAGS = ("C01",)
 CONTRACT_MODULES = ALL_CONTRACTS
-FUNCTIONS = MOTION_FUNCS + REGION_FUNCS + [S + "disableExclusion"] + HANDLER_FUNCS + [H + "handleAtCommand"] + AXIS_FUNCS[1:4] + [S + "resetState"]
+FUNCTIONS = MOTION_FUNCS + REGION_FUNCS + [S + "disableExclusion"] + HANDLER_FUNCS + [H + "handleAtCommand"] + AXIS_FUNCS[1:4] + [S + "resetState"] + [P + "on_event"]
 SELFCHECK = [S + "processLinearMoves", S + "isAnyPointExcluded", H + "_handle_G0", H + "_handle_G28"]
 ASSUMPTIONS = ["A1", "A2", "A3", "A4", "A5", "INDUCTION"]
 EXTRA_ASSUMPTIONS = ["region membership is the opaque spec predicate excluded(regions, x, y) := exists k. contains(region_k, x, y), "
